@@ -109,11 +109,11 @@ MCInstalled == {"traditional"}
 # ---------------------------------------------------------------------------------------------
 SETUPS = {
     "cscl": dict(entry="cscl", S=[[2, 0, 0], [0, 2, 0], [0, 0, 2]], pa=None,
-                 band="0 0 0 1/2 0 0, 1/2 1/2 0 0 0 0 1/2 1/2 1/2", mesh=["4", "4", "4"]),
+                 band="0 0 0 1/2 0 0, 1/2 1/2 0 0 0 0 1/2 1/2 1/2", mesh=["4", "4", "4"], fcut="12"),
     "wz": dict(entry="wz", S=[[2, 0, 0], [0, 2, 0], [0, 0, 1]], pa=None,
-               band="0 0 0 1/2 0 0, 1/3 1/3 0 0 0 0 0 0 1/2", mesh=["3", "3", "2"]),
+               band="0 0 0 1/2 0 0, 1/3 1/3 0 0 0 0 0 0 1/2", mesh=["3", "3", "2"], fcut="4"),
     "naclg": dict(entry="naclg", S=[[2, 0, 0], [0, 2, 0], [0, 0, 2]], pa="F",
-                  band="0 0 0 1/2 0 1/2, 1/2 1/2 1 0 0 0 1/2 1/2 1/2", mesh=["4", "4", "4"]),
+                  band="0 0 0 1/2 0 1/2, 1/2 1/2 1 0 0 0 1/2 1/2 1/2", mesh=["4", "4", "4"], fcut="4"),
 }
 PA = {"F": [[0, 0.5, 0.5], [0.5, 0, 0.5], [0.5, 0.5, 0]]}
 
@@ -596,9 +596,8 @@ def compare_outputs(setup, rp, res, written, cmp, outdir):
                           [x["number"] + 1 for x in ds["first_atoms"]])
                 P(f + ":displacements", [x["displacement"] for x in y["displacements"]],
                   [x["displacement"] for x in ds["first_atoms"]], C.decimals(t, "displacement"))
-            else:
-                P(f + ":displacements", [[a["displacement"] for a in x] for x in y["displacements"]],
-                  ds["displacements"], C.decimals(t, "displacement"))
+            else:  # one displacement of every atom per supercell
+                P(f + ":displacements", y["dataset"]["displacements"], ds["displacements"], 16)
             cmp.equal(f + ":configuration", {k: str(v) for k, v in y["phonopy"].get("configuration", {}).items()},
                       {k: str(v) for k, v in rp.confs.items()})
             nsc = len([w for w in written if w.startswith(SUPERCELL_FILES)])
@@ -677,6 +676,9 @@ def compare_outputs(setup, rp, res, written, cmp, outdir):
             if st.is_eigenvectors:
                 cmp_eigenvectors(cmp, f + ":eigenvectors", _evecs(y["phonon"]), np.concatenate(b["frequencies"]),
                                  np.concatenate(b["eigenvectors"]), C.decimals(t, "eigenvector"))
+            if st.is_group_velocity:
+                P(f + ":group_velocities", _bands(y["phonon"], "group_velocity"),
+                  np.concatenate(b["group_velocities"]), C.decimals(t, "group_velocity"))
         elif f == "band.hdf5" and "band" in res:
             cmp.checked.add(f)
             h = C.read_hdf5(path(f))
@@ -697,6 +699,9 @@ def compare_outputs(setup, rp, res, written, cmp, outdir):
             if st.is_eigenvectors:
                 cmp_eigenvectors(cmp, f + ":eigenvectors", _evecs(y["phonon"]), q["frequencies"], q["eigenvectors"],
                                  C.decimals(t, "eigenvector"))
+            if st.is_group_velocity:
+                P(f + ":group_velocities", _bands(y["phonon"], "group_velocity"), q["group_velocities"],
+                  C.decimals(t, "group_velocity"))
         elif f == "qpoints.hdf5" and "qpoints" in res:
             cmp.checked.add(f)
             h = C.read_hdf5(path(f))
@@ -874,6 +879,12 @@ def workflow_cases(su, full):
             C.write_forces(su.calc, os.path.join(su.dir, "calcz-%03d.out" % (i + 1)), sc.cell,
                            sc.scaled_positions, su.forces[i] + resid)
 
+    if full:
+        add("disp-nosym-amplitude", "phonopy", cellargs + ["-d", "--nosym", "--amplitude", "0.03"])
+        add("disp-pm-nodiag", "phonopy", cellargs + ["-d", "--pm", "--nodiag"])
+        add("disp-trigonal", "phonopy", cellargs + ["-d", "--trigonal"])
+        add("disp-random", "phonopy", cellargs + ["-d", "--rd", "3", "--random-seed", "5", "--amplitude", "0.02"])
+        add("disp-random-amax", "phonopy", cellargs + ["-d", "--rd", "2", "--random-seed", "7", "--amax", "0.05"])
     add("disp", "phonopy", cellargs + ["-d"], after=after_disp)
     add("no-force-sets", "phonopy", ["--mesh"] + M)
     add("force-sets-missing-files", "phonopy", ["-f", "nothere-1.out", "nothere-2.out"], force_files=["nothere-1.out"])
@@ -912,10 +923,23 @@ def workflow_cases(su, full):
         add("dos-sigma", cmd, base + ["--mesh"] + M + ["--dos", "--sigma", "0.3", "--fpitch", "0.5"])
         add("pdos", cmd, base + ["--mesh"] + M + ["--pdos", "1, 2"])
         add("pdos-xyz", cmd, base + ["--mesh"] + M + ["--pdos", "1, 2", "--xyz-projection"])
+        fcut = su.cfg["fcut"]
         add("tprop-over-pdos", cmd, base + ["--mesh"] + M + ["--pdos", "1, 2", "-t", "--tmax", "200", "--tstep", "100",
-                                                             "--cutoff-freq", "0.5"])
+                                                             "--cutoff-freq", fcut])
+        add("tprop-classical-bi", cmd, base + ["--mesh"] + M + ["-t", "--tmax", "200", "--tstep", "100", "--classical",
+                                                                "--bi", "1 2, 4"])
+        add("band-gv-const", cmd, base + ["--band", band, "--band-points", "6", "--gv", "--gv-delta-q", "0.002",
+                                          "--band-const-interval"])
+        add("qpoints-gv-eigvecs", cmd, base + ["--qpoints", "0.1 0.2 0.3 0.3 0.1 0", "--gv", "--eigvecs"])
+        add("factor-mass", cmd, base + ["--qpoints", "0.1 0.2 0.3", "--factor", "521.47", "--mass"] +
+            [str(20.0 + i) for i in range(len(su.make(None).primitive))])
+        add("fc-decimals", cmd, base + ["--qpoints", "0.1 0.2 0.3", "--fc-decimals", "3", "--dm-decimals", "5"])
+        add("dos-range", cmd, base + ["--mesh"] + M + ["--dos", "--fmin", "1", "--fmax", fcut, "--fpitch", "0.25"])
+        add("pdos-direction-sigma", cmd, base + ["--mesh"] + M + ["--pdos", "1, 2", "--pd", "1", "1", "0", "--sigma", "0.2"])
+        add("tdisp-direction-fmin", cmd, base + ["--mesh"] + M + ["--td", "--tmax", "200", "--tstep", "100",
+                                                                   "--pd", "1", "0", "0", "--fmin", fcut])
         add("tdisp", cmd, base + ["--mesh"] + M + ["--td", "--tmax", "300", "--tstep", "150"])
-        add("tdm", cmd, base + ["--mesh"] + M + ["--tdm", "--tmax", "300", "--tstep", "150", "--fmin", "0.1"])
+        add("tdm", cmd, base + ["--mesh"] + M + ["--tdm", "--tmax", "300", "--tstep", "150", "--fmax", fcut])
         add("tdm-cif", cmd, base + ["--mesh"] + M + ["--tdm-cif", "300"])
         add("moment", cmd, base + ["--mesh"] + M + ["--moment"])
         add("writefc-full-hdf5", cmd, base + ["--writefc", "--full-fc", "--writefc-format", "hdf5"])
@@ -946,7 +970,8 @@ def workflow_cases(su, full):
             (["--mesh"] + M if cmd == "load" else ["--readfc", "--mesh"] + M))
         add("rm-BORN", cmd, None, before=lambda su: os.remove(os.path.join(su.dir, "BORN")))
         add("write-conf", cmd, None, before=lambda su: open(os.path.join(su.dir, "run.conf"), "w").write(
-            "MESH = %s\nTPROP = .TRUE.\nTMAX = 200\nTSTEP = 100\nGAMMA_CENTER = .TRUE.\n" % " ".join(M)))
+            "MESH = %s\nTPROP = .TRUE.\nTMAX = 200\nTSTEP = 100\nMP_SHIFT = 1/2 0 0\n"
+            "TIME_REVERSAL_SYMMETRY = .FALSE.\n" % " ".join(M)))
         add("conf-file", cmd, (["run.conf"] if cmd == "phonopy" else L + ["--config", "run.conf"]) + ["--tmin", "100"])
         add("save-params", cmd, base + ["--mesh"] + M + ["--save-params"])
         add("rm-params", cmd, None, before=lambda su: os.remove(os.path.join(su.dir, "phonopy_params.yaml")))
